@@ -74,6 +74,10 @@ fn run_case(ctx: &mut Ctx, idx: u64) {
             };
             if m.consume_token(t).is_err() {
                 if via_fresh {
+                    if crate::tp::accepted_with_relaxed_limits(&v, None, &g, &hist, t) {
+                        ctx.rep.inconclusive("resource_stop");
+                        return;
+                    }
                     viol(ctx, idx, &g, &v, &hist, &ops, "token_from_fresh_mask_rejected", json!({"token": t}));
                     return;
                 }
